@@ -14,7 +14,7 @@
    All RefHeap operators only touch w.n (they use EXCEPT), so w is passed to them as their heap.
    WorldStep(w, c) = [ok, w']: the recorded call c (arguments + everything observed) is a step from w. *)
 EXTENDS Naturals, Integers, Sequences, FiniteSets, TLC, SequencesExt
-CONSTANT WMUT      \* mutant switches (anti-vacuity of MCWorld): RefHeap's own, "copy_loses_leaf", "set_by_value", "text_unescaped"
+CONSTANT WMUT      \* mutant switches (anti-vacuity of MCWorld): RefHeap's own, "copy_loses_leaf", "set_by_value", "text_unescaped", "patch_keeps_replaced"
 R == INSTANCE RefHeap WITH MUT <- WMUT
 V == INSTANCE JsonValue WITH MUTV <- {}
 S == INSTANCE Serializer WITH AsFoundS <- {}
@@ -197,13 +197,36 @@ WPatch(w, c) ==
             ELSE LET srcv == IF c.pop = "copy" THEN ValueOf(w, fromNode) ELSE c.val       \* (read before anything is released)
                      pl == Place(w.n, par, tk, 0, mode)                                  \* the slot, empty for the moment
                  IN IF ~pl.ok THEN Refused
-                    ELSE LET acc == R!Rel([n |-> pl.n, dead |-> {}, fired |-> {}], pl.rel)   \* a replaced value is released first
+                    ELSE LET acc == IF "patch_keeps_replaced" \in WMUT THEN [n |-> pl.n, dead |-> {}, fired |-> {}]       \* (mutant: never released)
+                                    ELSE R!Rel([n |-> pl.n, dead |-> {}, fired |-> {}], pl.rel)   \* a replaced value is released first
                          IN IF Len(c.newids) # DumpNodes(srcv) \/ ~KeysKnown(srcv) \/ (\E x \in 1..Len(c.newids) : c.newids[x] \in DOMAIN acc.n) THEN No(w)
                             ELSE LET b == Build([n |-> acc.n, leaf |-> [x \in {y \in DOMAIN w.leaf : y \in DOMAIN acc.n} |-> w.leaf[x]],
                                                  ids |-> c.newids, used |-> 0, last |-> 0], srcv)
                                      n2 == [b.n EXCEPT ![par].kids[SlotAfter(b.n, par, tk)] = b.last]
                                  IN IF c.ret = 0 /\ R!SetOf(c.dead) = acc.dead /\ R!SetOf(c.fired) = acc.fired
                                     THEN Ok(Prune([n |-> n2, leaf |-> b.leaf])) ELSE No(w)
+
+\* what a correct library reports for the call c (ret, newids, dead, fired filled in), the new nodes taking the least ids of
+\* `pool` that are free once a replaced value has been released; "skip" if the pool is too small (bounded model only)
+RECURSIVE LeastSeq(_, _)
+LeastSeq(S_, k) == IF k = 0 THEN <<>> ELSE LET x == CHOOSE y \in S_ : \A z \in S_ : y <= z IN <<x>> \o LeastSeq(S_ \ {x}, k - 1)
+WPatchComplete(w, c, pool) ==
+    LET par == R!Walk(w, c.a, FrontOf(c.path))
+        tk == c.path[Len(c.path)]
+        mode == IF c.pop = "replace" THEN "replace" ELSE "add"
+        fromNode == IF c.pop = "copy" THEN R!Walk(w, c.a, c.from) ELSE 0
+        fail == [c EXCEPT !.ret = -1, !.newids = <<>>, !.dead = <<>>, !.fired = <<>>]
+    IN IF par <= 0 \/ fromNode = -1 \/ (c.pop = "copy" /\ fromNode > 0 /\ \E x \in R!Reach(w, fromNode) : w.n[x].ud # 0) THEN fail
+       ELSE LET srcv == IF c.pop = "copy" THEN ValueOf(w, fromNode) ELSE c.val
+                pl == Place(w.n, par, tk, 0, mode)
+            IN IF ~pl.ok THEN fail
+               ELSE LET acc == IF "patch_keeps_replaced" \in WMUT THEN [n |-> pl.n, dead |-> {}, fired |-> {}]
+                               ELSE R!Rel([n |-> pl.n, dead |-> {}, fired |-> {}], pl.rel)
+                        free == pool \ DOMAIN acc.n
+                        k == DumpNodes(srcv)
+                    IN IF Cardinality(free) < k THEN [c EXCEPT !.ret = -99]
+                       ELSE [c EXCEPT !.ret = 0, !.newids = LeastSeq(free, k), !.dead = LeastSeq(acc.dead, Cardinality(acc.dead)),
+                                      !.fired = LeastSeq(acc.fired, Cardinality(acc.fired))]
 
 WorldOps == {"wleaf", "wset", "obs", "ser", "eq", "ptrget", "visit", "len", "asort", "parse", "wpatch"}
 WorldStep(w, c) ==
